@@ -11,6 +11,9 @@
 (* One action = one registry entry point = one durable transaction         *)
 (* (UpdateInvoice) plus the notifications sent under the registry lock:    *)
 (*   Notify    NotifyExitHopHtlc for a circuit key not on any invoice      *)
+(*             (a keysend call has two critical sections - KsInsert: the   *)
+(*             just-in-time AddInvoice, NotifyLocked: the update under the *)
+(*             registry lock - between which other calls may run)          *)
 (*   Replay    NotifyExitHopHtlc for a circuit key recorded on an invoice  *)
 (*   Settle    SettleHodlInvoice                                           *)
 (*   Cancel    CancelInvoice                                               *)
@@ -47,8 +50,9 @@ VARIABLES kinds,     \* <<kind of slot 1, kind of slot 2>>: what was added with 
           timer,     \* circuits with a pending auto-release timer  (autoReleaseHeap)
           setOwner,  \* AMP set id -> invoice slot that indexed it  (set id index), 0 = none
           height, now,
+          pend,      \* keysend HTLCs between processKeySend (invoice inserted) and the locked part of their call
           last       \* observation of the last step: direct resolution + hodl deliveries
-vars == <<kinds, inv, htlc, sub, timer, setOwner, height, now, last>>
+vars == <<kinds, inv, htlc, sub, timer, setOwner, height, now, pend, last>>
 
 C   == 1..NC
 Inv == 1..2
@@ -96,7 +100,7 @@ Init == /\ kinds = <<K1, K2>>
         /\ htlc = [c \in C |-> NoHtlc]
         /\ sub = {} /\ timer = {}
         /\ setOwner = [s \in Sets |-> 0]
-        /\ height = 0 /\ now = 0
+        /\ height = 0 /\ now = 0 /\ pend = {}
         /\ last = [a |-> "init", c |-> 0, k |-> 0, res |-> "none", why |-> "", alt |-> "", hodl |-> NoMsgs]
 
 -----------------------------------------------------------------------------
@@ -207,7 +211,12 @@ ApplyAddAmp(i, p, k, vd) ==
                             THEN [f0[d] EXCEPT !.st = "settled"] ELSE f0[d]]
       i1  == [i EXCEPT ![k].paid = i[k].paid + p.amt]
       nt  == IF vd.res = "settle" THEN {d \in sub : f1[d].k = k /\ f1[d].set = s /\ f1[d].st = "settled"} ELSE {}
-  IN IF setOwner[s] \notin {0, k}
+  IN IF vd.res # "settle" /\ \E d \in C : htlc[d].k = k /\ htlc[d].set = s /\ htlc[d].st = "settled"
+       \* an HTLC that joins a set id which has already been settled, without completing a set itself:
+       \* getUpdatedHtlcState meets a settled HTLC on an invoice that is not settled (an AMP invoice
+       \* stays open) -> ErrHTLCAlreadySettled, NotifyExitHopHtlc returns the error (observation O1)
+       THEN Same(i, "err", "")
+     ELSE IF setOwner[s] \notin {0, k}
        THEN Same(i, "fail", WNotFound)                      \* ErrDuplicateSetID: rolled back
        ELSE Out(i1, f1,
                 (sub \ nt) \cup (IF vd.res = "accept" THEN {c} ELSE {}),
@@ -232,20 +241,21 @@ ApplyCancelSet(i, p, k) ==
 (* NotifyExitHopHtlc for a circuit key c that is on no invoice.            *)
 (* p = [c, pl, h, ad, amt, tot, exp, set, good]                            *)
 (***************************************************************************)
-NotifyOut(p) ==
-  LET ksBad == p.pl = "keysend" /\ (~p.good \/ p.exp < height + RejectDelta)
-      \* processKeySend: just-in-time invoice for the HTLC amount
-      i0 == IF p.pl = "keysend" /\ ~ksBad /\ ~inv[p.h].ex
+\* processKeySend (outside the registry lock): reject a bad keysend, else insert the just-in-time invoice
+KsBad(p) == p.pl = "keysend" /\ (~p.good \/ p.exp < height + RejectDelta)
+KsIns(p) == IF p.pl = "keysend" /\ ~KsBad(p) /\ ~inv[p.h].ex
               THEN [inv EXCEPT ![p.h] = [ex |-> TRUE, st |-> "open", paid |-> 0, val |-> p.amt]]
               ELSE inv
-      k  == Target(i0, p)
+\* notifyExitHopHtlcLocked (under the registry lock) on the invoice table i0
+LockedOut(i0, p) ==
+  LET k  == Target(i0, p)
       vd == IF p.pl \in {"legacy", "keysend"} THEN Legacy(i0, p, k) ELSE Mpp(i0, p, k)
-  IN IF ksBad THEN Same(inv, "fail", WKeysend)
-     ELSE IF k = 0 THEN Same(i0, "fail", WNotFound)
+  IN IF k = 0 THEN Same(i0, "fail", WNotFound)
      ELSE IF RefSQLDiffers(i0, p) THEN [Same(i0, "fail", vd.why) EXCEPT !.alt = WNotFound]   \* vd.v = "fail" here
      ELSE CASE vd.v = "fail" -> Same(i0, "fail", vd.why)
             [] vd.v = "cancelset" -> ApplyCancelSet(i0, p, k)
             [] vd.v = "add" -> IF IsAmp(k) THEN ApplyAddAmp(i0, p, k, vd) ELSE ApplyAdd(i0, p, k, vd)
+NotifyOut(p) == IF KsBad(p) THEN Same(inv, "fail", WKeysend) ELSE LockedOut(KsIns(p), p)
 
 \* resolveReplayedHtlc + the same notification code
 ReplayOut(c) ==
@@ -268,13 +278,26 @@ Commit(o, a, c, k) ==
   /\ last' = [a |-> a, c |-> c, k |-> k, res |-> o.res, why |-> o.why, alt |-> o.alt, hodl |-> o.hodl]
   /\ UNCHANGED kinds
 
-Notify(p) == /\ htlc[p.c] = NoHtlc
+\* the whole call in one step (no other call in between)
+Notify(p) == /\ htlc[p.c] = NoHtlc /\ \A x \in pend : x.c # p.c
              /\ Commit(NotifyOut(p), "Notify", p.c, 0)
-             /\ UNCHANGED <<height, now>>
+             /\ UNCHANGED <<height, now, pend>>
+
+\* the two critical sections of a keysend call, other calls may come in between
+KsInsert(p) == /\ p.pl = "keysend" /\ ~KsBad(p)
+               /\ htlc[p.c] = NoHtlc /\ \A x \in pend : x.c # p.c
+               /\ inv' = KsIns(p)
+               /\ pend' = pend \cup {p}
+               /\ last' = [a |-> "KsInsert", c |-> p.c, k |-> 0, res |-> "none", why |-> "", alt |-> "", hodl |-> NoMsgs]
+               /\ UNCHANGED <<kinds, htlc, sub, timer, setOwner, height, now>>
+NotifyLocked(p) == /\ p \in pend
+                   /\ Commit(LockedOut(inv, p), "Notify", p.c, 0)
+                   /\ pend' = pend \ {p}
+                   /\ UNCHANGED <<height, now>>
 
 Replay(c) == /\ htlc[c] # NoHtlc
              /\ Commit(ReplayOut(c), "Replay", c, 0)
-             /\ UNCHANGED <<height, now>>
+             /\ UNCHANGED <<height, now, pend>>
 
 \* SettleHodlInvoice with the preimage of slot k
 SettleOut(k) ==
@@ -284,7 +307,7 @@ SettleOut(k) ==
       nt == {d \in sub : f1[d].k = k /\ f1[d].st = "settled"}
   IN IF ~inv[k].ex \/ inv[k].st # "accepted" THEN Same(inv, "err", "")
      ELSE Out(i1, f1, sub \ nt, timer, setOwner, "ok", "", Msgs(nt, "settle", WSettled))
-Settle(k) == Commit(SettleOut(k), "Settle", 0, k) /\ UNCHANGED <<height, now>>
+Settle(k) == Commit(SettleOut(k), "Settle", 0, k) /\ UNCHANGED <<height, now, pend>>
 
 \* CancelInvoice of slot k
 CancelOut(k) ==
@@ -299,7 +322,7 @@ CancelOut(k) ==
      ELSE IF inv[k].st = "canceled" THEN Same(inv, "ok", "")               \* idempotent
      ELSE IF \E d \in OnInv(htlc, k) : htlc[d].st = "settled" THEN Same(inv, "err", "")  \* AMP: a settled set
      ELSE Out(i1, f1, sub \ nt, timer, setOwner, "ok", "", Msgs(nt, "fail", WCanceled))
-Cancel(k) == Commit(CancelOut(k), "Cancel", 0, k) /\ UNCHANGED <<height, now>>
+Cancel(k) == Commit(CancelOut(k), "Cancel", 0, k) /\ UNCHANGED <<height, now, pend>>
 
 \* half an HtlcHoldDuration passes; due timers run cancelSingleHtlc(ResultMppTimeout)
 Tick ==
@@ -314,12 +337,13 @@ Tick ==
   IN /\ now < MaxNow
      /\ now' = now + 1
      /\ Commit(Out(i1, f1, sub \ nt, timer \ due, setOwner, "none", "", Msgs(nt, "fail", WTimeout)), "Tick", 0, 0)
-     /\ UNCHANGED height
+     /\ UNCHANGED <<height, pend>>
 
-Block == /\ height < MaxHeight
+\* (a call in flight keeps the height it was made with: a block is ordered after it)
+Block == /\ height < MaxHeight /\ pend = {}
          /\ height' = height + 1
          /\ Commit(Same(inv, "none", ""), "Block", 0, 0)
-         /\ UNCHANGED now
+         /\ UNCHANGED <<now, pend>>
 
 -----------------------------------------------------------------------------
 (* The HTLCs the model checker sends: amounts around the value, totals     *)
@@ -345,7 +369,8 @@ Params(c) ==
                  : h \in {x \in Inv : Kind(x) = "keysend"}, a \in Amts, m \in {-1, 0, 1}, g \in BOOLEAN}
           ELSE {})
 
-Next == \/ \E c \in C : \E p \in Params(c) : Notify(p)
+Next == \/ \E c \in C : \E p \in Params(c) : Notify(p) \/ (pend = {} /\ KsInsert(p))
+        \/ \E p \in pend : NotifyLocked(p)
         \/ \E c \in C : Replay(c)
         \/ \E k \in Inv : Settle(k) \/ Cancel(k)
         \/ Tick
@@ -442,7 +467,22 @@ TypeOK == /\ \A k \in Inv : inv[k].st \in {"open", "accepted", "settled", "cance
 (* before it looks at the invoice, and processKeySend compares the HTLC's  *)
 (* expiry with the CURRENT height.  The replay of a keysend HTLC that is   *)
 (* already accepted/settled therefore answers "invalid keysend parameters" *)
-(* once expiry < height + FinalCltvRejectDelta.  ReplaySameVerdict fails   *)
-(* with KeysendQuirk = TRUE; the real code behaves like KeysendQuirk=TRUE. *)
+(* once expiry < height + FinalCltvRejectDelta.  ReplaySameVerdict (and    *)
+(* ResolutionsAgree) fail with KeysendQuirk = TRUE; the real code behaves  *)
+(* like KeysendQuirk = TRUE (fixed schedule d1_keysend_replay.ndjson).     *)
+(*                                                                         *)
+(* Behaviour of the code that the statement of C15 does not forbid and     *)
+(* that is modelled as it is (all reached by the executor):                *)
+(*  O1  an AMP HTLC that joins a set id which is already settled, without  *)
+(*      completing a set, makes NotifyExitHopHtlc return an error          *)
+(*      (ErrHTLCAlreadySettled; the link treats it as an internal error);  *)
+(*      the same error for an AMP reconstruction failure on such a set and *)
+(*      for CancelInvoice of an AMP invoice that has a settled set.        *)
+(*  O2  an AMP reconstruction failure cancels the whole AMP invoice; HTLCs *)
+(*      of its other sets stay accepted (their timers no longer cancel     *)
+(*      them: the invoice is not open) or settled.                         *)
+(*  O3  KV and SQL answer differently (both fail) for an MPP HTLC whose    *)
+(*      payment address is indexed for no invoice: RefSQLDiffers.          *)
+(*  O4  a keysend call is two critical sections: KsInsert / NotifyLocked.  *)
 (***************************************************************************)
 =============================================================================
